@@ -23,6 +23,9 @@ raw segments) that spells a non-text segment under some delimiter configuration 
     spans    the [start, end) offsets in S of whitespace removed on the LEFT side of tags
              (right-side removals lie inside the end-tag tokens; C39)
     effects  set of labels: which rules removed / pointedly kept something
+    ambiguous  True when the prediction rests on a point the documentation leaves open (lstrip_blocks
+             before a tag preceded, on its line, by whitespace other than spaces and tabs); callers
+             skip the comparison for that configuration and count it
 
 The rules (one per documented sentence):
   * line breaks are \r\n, \r, \n; one trailing line break is dropped unless keep_trailing_newline;
@@ -112,12 +115,16 @@ def _lstrip_line(text, line_starting):
     if tail.strip() != "":
         return len(text), "blocked"  # other characters before the tag on this line
     if l_pos > 0 or line_starting:
+        if tail.strip(" \t") != "":
+            # docs/templates.rst speaks of "tabs and spaces"; the property statement of "whitespace":
+            # a tail holding other whitespace characters is not decided by the documentation
+            return l_pos, "ambiguous-ws"
         return l_pos, "removed"
     return len(text), "midline"  # whitespace only, but the line did not start here
 
 
 class Analysis:
-    __slots__ = ("S", "out", "spans", "effects", "ntags")
+    __slots__ = ("S", "out", "spans", "effects", "ntags", "ambiguous")
 
     def rendered(self, newline_sequence):
         return "".join(p[1].replace("\n", newline_sequence) if p[0] == "t" else p[1] for p in self.out)
@@ -215,6 +222,7 @@ def analyse(sk, pr, trim=False, lstrip=False, ktn=False):
     a.S = "".join(x if isinstance(x, str) else x.s for x in seq)
     a.out, a.spans, a.effects = out, spans, effects
     a.ntags = sum(1 for x in seq if not isinstance(x, str))
+    a.ambiguous = "lstrip:ambiguous-ws" in effects
     if pos != len(a.S):
         raise Decline("offset bookkeeping error")
     return a
@@ -269,7 +277,7 @@ def walk_tokens(S, spans, tokens):
     pos = 0
     res = []
     for lineno, typ, val in tokens:
-        while pos in starts:
+        while val != "" and pos in starts:  # an empty token (linecomment_end) stands where the previous token ended
             pos = starts.pop(pos)
         if not S.startswith(val, pos):
             return None, "token %s %r does not continue the source at offset %d (source there: %r)" % (typ, val, pos, S[pos:pos + 30])
